@@ -2,12 +2,8 @@
    A case is a signature, the initial __arguments__ (as the implementation stored it after the
    constructor), and an edit history with, per step, what the implementation returned / raised and
    the __arguments__ dict (items in insertion order) it left. *)
-From Fiddle Require Import PyBase PySlice Sig ArgStore.
+From Fiddle Require Import PyBase PySlice Sig ArgStore ArgSpec.
 
-Definition out_eq_dec : forall a b : out, {a = b} + {a <> b}.
-Proof.
-  decide equality; auto using ref_eq_dec, exn_eq_dec, (list_eq_dec ref_eq_dec).
-Defined.
 
 Record case := mkcase { c_sig : sig; c_init : store; c_steps : list (op * (out * store)) }.
 
@@ -21,8 +17,17 @@ Fixpoint run_steps (sg : sig) (st : store) (steps : list (op * (out * store))) :
       else false
   end.
 
+(* the refinement statement C03_refines, tested along the same history *)
+Fixpoint refines_along (sg : sig) (st : store) (ops : list op) : bool :=
+  match ops with
+  | [] => true
+  | o :: rest =>
+      (negb (op_ok o) || refines_step_b sg st o) && refines_along sg (fst (step sg st o)) rest
+  end.
+
 Definition check_case (c : case) : bool :=
-  valid_sig (c_sig c) && run_steps (c_sig c) (c_init c) (c_steps c).
+  valid_sig (c_sig c) && run_steps (c_sig c) (c_init c) (c_steps c)
+  && inv_b (c_sig c) (c_init c) && refines_along (c_sig c) (c_init c) (map fst (c_steps c)).
 
 (* for replay files: what the model computes along the history *)
 Fixpoint model_trace (sg : sig) (st : store) (ops : list op) : list (out * store) :=
